@@ -482,26 +482,44 @@ class LLMRails:
 
                 p -= 1
 
+            # The new turn is the last user message that has not been answered yet, i.e., that is
+            # only followed by messages which are neither from the user nor from the assistant
+            # (e.g., a trailing `system` or `context` message). It must go through the input rails
+            # like a user message in the last position, so it must not be recorded as an
+            # already processed `UserMessage`.
+            new_turn_idx = None
+            for idx in range(len(messages) - 1, p - 1, -1):
+                if messages[idx]["role"] == "assistant":
+                    break
+                if messages[idx]["role"] == "user":
+                    new_turn_idx = idx
+                    break
+            new_turn_event = None
+
             # For the rest of the messages, we transform them directly into events.
             # TODO: Move this to separate function once more types of messages are supported.
             for idx in range(p, len(messages)):
                 msg = messages[idx]
                 if msg["role"] == "user":
+                    utterance_event = {
+                        "type": "UtteranceUserActionFinished",
+                        "final_transcript": msg["content"],
+                    }
+
+                    if idx == new_turn_idx:
+                        # The utterance that starts the new turn must be the last event.
+                        new_turn_event = utterance_event
+                        continue
+
+                    events.append(utterance_event)
+
+                    # If it's not the new turn, we also need to add the `UserMessage` event
                     events.append(
                         {
-                            "type": "UtteranceUserActionFinished",
-                            "final_transcript": msg["content"],
+                            "type": "UserMessage",
+                            "text": msg["content"],
                         }
                     )
-
-                    # If it's not the last message, we also need to add the `UserMessage` event
-                    if idx != len(messages) - 1:
-                        events.append(
-                            {
-                                "type": "UserMessage",
-                                "text": msg["content"],
-                            }
-                        )
 
                 elif msg["role"] == "assistant":
                     action_uid = new_uuid()
@@ -521,6 +539,9 @@ class LLMRails:
                     events.append({"type": "ContextUpdate", "data": msg["content"]})
                 elif msg["role"] == "event":
                     events.append(msg["event"])
+
+            if new_turn_event is not None:
+                events.append(new_turn_event)
         else:
             for idx in range(len(messages)):
                 msg = messages[idx]
